@@ -179,10 +179,8 @@ func runOne(id, tier string, seed int, repo, verifDir string, overlay map[string
 		}
 		bad = append(bad, *o)
 	}
-	wall := time.Since(start).Seconds()
-
 	fmt.Printf("== %s tier=%s: %d obligations, %d hold, %d known findings, %d not holding (%.1fs)\n",
-		id, tier, len(rep.Obligations), holds, len(knownHit), len(bad), wall)
+		id, tier, len(rep.Obligations), holds, len(knownHit), len(bad), time.Since(start).Seconds())
 	rulesSorted := make([]string, 0, len(rep.Counts))
 	for r := range rep.Counts {
 		rulesSorted = append(rulesSorted, r)
@@ -234,6 +232,23 @@ func runOne(id, tier string, seed int, repo, verifDir string, overlay map[string
 		return code
 	}
 
+	// positive / negative controls (thorough tier): overlay variants of the
+	// anchored files, one child process each. Outcomes are evidence about the
+	// checker, never a verdict about the repository.
+	var controls []controlResult
+	if (tier == "thorough" || os.Getenv("VERIF_CONTROLS") == "1") && os.Getenv("VERIF_NO_CONTROLS") == "" && len(overlay) == 0 {
+		baseline := map[string]bool{}
+		for _, o := range rep.Obligations {
+			if o.Decision != core.Holds {
+				baseline[o.Key()] = true
+			}
+		}
+		controls = runControls(verifDir, repo, id, baseline)
+		for _, cr := range controls {
+			fmt.Printf("   control %-9s %-14s %s %v\n", cr.Kind, cr.Outcome, cr.Name, cr.Reported)
+		}
+	}
+
 	// evidence
 	samples := []any{}
 	addSample := func(o core.Obligation) {
@@ -280,6 +295,7 @@ func runOne(id, tier string, seed int, repo, verifDir string, overlay map[string
 		"known_findings":      knownHit,
 		"all_obligations":     rep.Obligations,
 		"notes":               rep.Notes,
+		"controls":            controls,
 		"checker_cmd":         fmt.Sprintf("bin/verifcheck -property %s -tier %s", id, tier),
 		"trusted_base":        []string{"go/types type checker (go1.26.8)", "golang.org/x/tools v0.50.0 go/ssa, callgraph/vta", "frozen rule tables in the checker source and /verif/rules"},
 		"exhaustive":          false,
@@ -291,7 +307,7 @@ func runOne(id, tier string, seed int, repo, verifDir string, overlay map[string
 			"the community-edition build (no consulent tag) on linux/amd64 is the analysed program",
 			"a HOLDS verdict means the structural necessary condition is intact on all paths the compiler sees, not that the behavioural property holds for all histories",
 		},
-		WallS: wall, Violations: len(bad),
+		WallS: time.Since(start).Seconds(), Violations: len(bad),
 	}
 	os.MkdirAll(filepath.Join(verifDir, "evidence"), 0o755)
 	b, _ := json.MarshalIndent(ev, "", " ")
